@@ -190,6 +190,7 @@ func VerifC11Shutdown() {
 	verifIntercept("time.After", vAfterThreaded)
 	verifIntercept("time.Sleep", vSleepThreaded)
 	verifGoMode(1)
+	c.st.slow = verifBound("persistloop", 0) == 1
 	for _, vj := range w.jobs {
 		if vj.live {
 			verifStartSpawned(vj.spawnIdx)
@@ -336,3 +337,86 @@ func VerifC11Shutdown() {
 }
 
 var _ = definition.QueueStrategyAppend
+
+// VerifC11Persist: the persist loop (real goroutine of NewPipelineRunner) races the shutdown: a
+// periodic save whose write is slow must not land after the final save of Shutdown, i.e. when
+// Shutdown has returned and every activity has ended the store holds the final state of every job.
+// One running and one waiting job, concrete configuration, graceful shutdown; the store's write is
+// a switch point.
+func VerifC11Persist() {
+	w := &vWorld{envAtRunner: map[*PipelineJob]map[string]string{}}
+	vW = w
+	c := &vC11{w: w, st: &vStore{}, runningAtStop: map[*vJob]bool{}, runners: map[*PipelineJob]*vRunner{}}
+	vS = c
+	verifIntercept("github.com/gofrs/uuid.NewV4", vNewV4)
+	verifIntercept("time.AfterFunc", vAfterFunc)
+	verifIntercept("(*time.Timer).Stop", vTimerStop)
+	verifIntercept("(*github.com/Flowpack/prunner/taskctl.Scheduler).Schedule", vScheduleStub)
+	w.defs = &definition.PipelinesDef{Pipelines: map[string]definition.PipelineDef{vP: {Concurrency: 1, Tasks: vTasks(0), Env: vEnv(0)}}}
+	runnerCtx := &vCtx{done: make(chan struct{})}
+	r, err := NewPipelineRunner(runnerCtx, w.defs, func(j *PipelineJob) taskctl.Runner {
+		vr := &vRunner{job: j}
+		c.runners[j] = vr
+		return vr
+	}, c.st, &vOutputStore{})
+	if err != nil {
+		verifFail("harness: NewPipelineRunner failed")
+		return
+	}
+	w.r = r
+	w.scanSpawned()
+	w.evStart = vNowNs()
+	w.doSchedule(false) // j1 runs
+	w.doSchedule(false) // j2 waits
+	verifIntercept("(*github.com/Flowpack/prunner/taskctl.Scheduler).Schedule", vScheduleThreaded)
+	verifIntercept("time.After", vAfterThreaded)
+	verifIntercept("time.Sleep", vSleepThreaded)
+	verifGoMode(1)
+	c.st.slow = true
+	for _, vj := range w.jobs {
+		if vj.live {
+			verifStartSpawned(vj.spawnIdx)
+		}
+	}
+	for _, og := range w.otherGos {
+		if !og.done {
+			og.done = true
+			verifStartSpawned(og.idx) // the persist loop
+		}
+	}
+	ctx := &vCtx{done: make(chan struct{})}
+	verifEvent("SHUTDOWN graceful (persist loop running)")
+	serr := r.Shutdown(ctx)
+	c.shutdownRet = true
+	verifAssert(serr == nil, "C11.graceful-shutdown-succeeds")
+	// let an in-flight periodic save land, then stop the persist loop
+	verifYield()
+	close(runnerCtx.done)
+	verifBlockUntil(func() bool { return verifThreadsAlive() == 0 })
+	verifAssert(len(c.st.saved) >= 1, "C11.final-save-happened")
+	if len(c.st.saved) == 0 {
+		return
+	}
+	last := c.st.saved[len(c.st.saved)-1]
+	n := 0
+	r.IterateJobs(func(j *PipelineJob) {
+		n++
+		found := false
+		for _, pj := range last.Jobs {
+			if pj.ID == j.ID {
+				found = true
+				verifAssert(pj.Completed == j.Completed && pj.Canceled == j.Canceled && (pj.End == nil) == (j.End == nil), "C11.store-equals-final-state")
+			}
+		}
+		verifAssert(found, "C11.store-holds-every-job")
+		verifAssert(j.Completed || j.Canceled, "C11.every-job-terminal-at-return")
+	})
+	if len(c.st.saved) >= 2 {
+		verifReach("periodic-and-final-save")
+	}
+	if c.sleepArg != 0 {
+		verifAssert(c.sleepArg <= 3*time.Second, "C11.persist-interval-at-most-3s")
+		verifReach("persist-interval-seen")
+	}
+	verifReach("end")
+}
